@@ -1,7 +1,7 @@
 #!/bin/bash
 # seed_confirm.sh <prop> <n> : confirm a seeded change in the scratch worktree /tmp/wt-<prop>:
 #  existing suite passes with the patch, demo fails with it and passes without. Writes /tmp/seed-out/<prop>/<n>/confirm.txt
-p=$1; n=$2; wt=/tmp/wt-$p; d=/tmp/seed-out/$p/$n; out=$d/confirm.txt
+p=$1; n=$2; wt=/tmp/wt-$p; d=${SEED_OUT:-/tmp/seed-out}/$p/$n; out=$d/confirm.txt
 cd $wt || exit 2
 git checkout -q -- . ; rm -f tests/seed_demo.rs
 {
